@@ -46,7 +46,9 @@ RULE = ("cases = (family, operation + parameters, operand tree of depth 1-3 with
         "plain / Payload / Payload(Payload) / CoordPayload; a fiber as split list; zero / negative steps, empty split lists, "
         "fibers built with ordered=False / unique=False (stored order rotated); after a read the operand and an untouched twin "
         "receive the same in-place growth and must answer all shape-dependent queries alike; no instance attribute added; "
-        "order-sensitive merge callbacks with 3-way collisions, coordinates 9 / 10 / 100, depth 4; every payload a reader "
+        "operands that are themselves results of earlier transforms (splits, split chains, flatten+unflatten, swap, "
+        "elementwise results, copies), in particular of EMPTY fibers; follow-ups that create a new top-level element and "
+        "fill it; order-sensitive merge callbacks with 3-way collisions, coordinates 9 / 10 / 100, depth 4; every payload a reader "
         "delivers is a stored payload or a fresh object outside the operand's graph, pairwise distinct. non-trivial = value case with a non-empty operand and follow-ups on both sides, or a read case "
         "on an operand with > 12 objects")
 
@@ -226,7 +228,9 @@ def _build_fiber(case, tree, depth, fd, level=0):
 def build(case, key="t"):
     try:
         return _build(case, key)
-    except (AssertionError, TypeError, ValueError) as e:
+    except BuildRejected:
+        raise
+    except Exception as e:          # counted in the evidence (outcomes: skip:build:<class>)
         raise BuildRejected(type(e).__name__)
 
 
@@ -257,13 +261,40 @@ def _build(case, key="t"):
         if brk:
             ft.Metrics.endCollect()
     pre = case.get("pre")
-    if pre:                      # tuple-coordinate operands come from a previous flatten (outside any bracket)
+    steps = [] if not pre else ([dict(pre, k="flatten")] if isinstance(pre, dict) else pre)
+    for st in steps:             # the operand is the RESULT of earlier transforms (outside any bracket)
+        x = tensor if tensor is not None else f
+        k = st["k"]
+        if k == "flatten":       # tuple coordinates
+            y = (x.flattenRanks(depth=st.get("depth", 0), levels=st.get("levels", 1), coord_style=st.get("style", "tuple"))
+                 if tensor is not None else
+                 x.flattenRanks(depth=st.get("depth", 0), levels=st.get("levels", 1), style=st.get("style", "tuple")))
+        elif k == "splitUniform":
+            y = x.splitUniform(st.get("step", 2), depth=st.get("depth", 0))
+        elif k == "splitEqual":
+            y = x.splitEqual(st.get("step", 2), depth=st.get("depth", 0))
+        elif k == "splitNonUniform":
+            y = x.splitNonUniform(list(st.get("splits", [0, 2])), depth=st.get("depth", 0))
+        elif k == "unflatten":
+            y = x.unflattenRanks(depth=0, levels=st.get("levels", 1)) if tensor is not None else x.unflattenRanks(levels=st.get("levels", 1))
+        elif k == "swap":
+            y = x.swapRanks(depth=0) if tensor is not None else x.swapRanks()
+        elif k == "mul":
+            y = x * st.get("s", 2)
+        elif k == "add":
+            y = x + x
+        elif k == "copy":
+            y = copy.deepcopy(x)
+        else:
+            raise ValueError(k)
         if tensor is not None:
-            tensor = tensor.flattenRanks(depth=pre.get("depth", 0), levels=pre.get("levels", 1),
-                                         coord_style=pre.get("style", "tuple"))
+            if not isinstance(y, ft.Tensor):
+                raise BuildRejected("fiber-from-tensor")
+            tensor = y
             op = tensor
         else:
-            op = f.flattenRanks(depth=pre.get("depth", 0), levels=pre.get("levels", 1), style=pre.get("style", "tuple"))
+            f = y
+            op = f
     if kind == "root":
         op = tensor.getRoot()
     elif kind == "sub":
@@ -436,13 +467,29 @@ def own_mutation(rng, side_obj, dflt):
     root = root_fiber(side_obj)
     fibers = _all_fibers(root) if root is not None else []
     leaves = [(f, i) for f in fibers for i, p in enumerate(f.payloads) if isinstance(p, ft.Payload)]
-    kinds = ["leafset", "leafadd", "setitem", "clear", "append", "attr", "active"]
+    kinds = ["leafset", "leafadd", "setitem", "clear", "append", "attr", "active", "refnew", "refnew"]
     if isinstance(side_obj, ft.Tensor):
         kinds += ["tattr", "tattr"]
     k = rng.choice(kinds)
     v = rng.choice([1, 2, -3, 7, 0, 5])
     if k in ("leafset", "leafadd", "setitem") and not leaves:
         k = "append"
+    if k == "refnew":
+        # create an element at a new coordinate (whatever default the fiber instantiates) and fill it
+        f = rng.choice(fibers[:3]) if fibers else None
+        c_new = rng.choice([21, 40, -2])
+
+        def th():
+            if f is None:
+                return
+            mc = f.maxCoord()
+            c = c_new if not isinstance(mc, tuple) else ft.Fiber._nextCoord(mc)
+            sub = f.getPayloadRef(c)
+            if isinstance(sub, ft.Fiber):
+                sub.append(22, v if v else 3)
+            else:
+                sub <<= (v if v else 3)
+        return k, th
     if k == "leafset":
         f, i = rng.choice(leaves)
 
@@ -1461,6 +1508,43 @@ def gen_wide(tier):
                 for kind in kinds:
                     h += 1
                     yield _mk("value", op, args, {}, 2, dflt, t, kind, h, fdflt=fdflt, nfollow=4, n=4)
+    # operands that are RESULTS of transforms, in particular of EMPTY fibers (their fibers carry defaults, shapes and
+    # active ranges no constructor call produces, e.g. an empty Fiber INSTANCE as default of a split's upper level)
+    chains = [[{"k": "splitUniform", "step": 3}], [{"k": "splitEqual", "step": 2}],
+              [{"k": "splitNonUniform", "splits": [0, 2]}], [{"k": "splitUniform", "step": 2}, {"k": "splitEqual", "step": 1}],
+              [{"k": "flatten"}, {"k": "unflatten"}], [{"k": "swap"}], [{"k": "splitUniform", "step": 3}, {"k": "mul"}],
+              [{"k": "splitUniform", "step": 2}, {"k": "copy"}], [{"k": "add"}], [{"k": "splitEqual", "step": 2}, {"k": "add"}]]
+    rtrees = {1: [[], [[0, 0]], [[0, 1], [2, 2], [5, 3]]], 2: [[], [[1, []]], [[0, [[0, 1], [2, 2]]], [2, [[1, 3]]]]]}
+    for d in (1, 2):
+        vops = value_ops(d)
+        rops = [o for o in read_ops(d) if o[0].split(".")[1] in ("getPayload", "iter", "iterShape", "shape", "str", "eq", "or",
+                                                                  "counting", "uncompress", "eq_copy", "accessors")]
+        for ci, chain in enumerate(chains):
+            if d == 1 and chain[0]["k"] in ("flatten", "swap"):
+                continue
+            for ti, t in enumerate(rtrees[d]):
+                for fam, ops in (("value", vops), ("read", rops)):
+                    for oi, (op, args, extra) in enumerate(ops):
+                        if extra.get("pre"):
+                            continue
+                        # quick: every operation on the EMPTY operand for the first chains, a rotating slice otherwise
+                        if quick and not (ti == 0 and ci in (0, 4, 5, 6) and fam == "value") and (oi + ci + ti) % 9:
+                            continue
+                        kinds = ["tensor"] if op.startswith(("T.", "R.")) else ["free", "root"]
+                        if any(st["k"] in ("mul", "add") for st in chain):     # fiber-level steps: free fibers only
+                            if kinds == ["tensor"]:
+                                continue
+                            kinds = ["free"]
+                        kind = kinds[(oi + ci) % len(kinds)]
+                        h += 1
+                        kw = {"nfollow": 6 if quick else 10, "n": 6, "pre": chain}
+                        if extra.get("two"):
+                            kw["t2"] = rtrees[d][(ti + 1) % 3]
+                        if fam == "value" and (oi + ci) % 4 == 0:
+                            kw["twice"] = True
+                        if fam == "read" and (oi + ci) % 3 == 0:
+                            kw["twin"] = True
+                        yield _mk(fam, op, args, extra, d, 0 if (oi + ti) % 3 else 7, t, kind, h, **kw)
     for d in (1, 2, 3, 4):
         trees = WIDE_TREES[d]
         vops = value_ops(d) if d < 4 else [o for o in value_ops(3) if o[1].get("depth", 0) == 0][::3]
@@ -1574,7 +1658,7 @@ def gen_main(seed, tier):
             yield _mk("read", op, {}, {}, d, 0, t, "tensor" if op.startswith("T.") else "root", h, **kw)
     # ---- seeded random -----------------------------------------------------------------
     rng = random.Random(seed)
-    nrand = 1200 if quick else 24000
+    nrand = 1000 if quick else 24000
     for i in range(nrand):
         d = rng.choice([1, 2, 2, 3])
         n = rng.choice([3, 4, 6])
@@ -1621,6 +1705,14 @@ def gen_main(seed, tier):
             kw["twice" if fam == "value" else "remut"] = True
         elif r < 0.52 and d >= 2 and not extra.get("pre") and "unflatten" not in op and "swizzle" not in op:
             kw["pre"] = {"depth": 0, "levels": 1, "style": rng.choice(["tuple", "pair"])}
+        elif r < 0.62 and not extra.get("pre") and "swizzle" not in op:
+            kw["pre"] = rng.choice([[{"k": "splitUniform", "step": rng.choice([2, 3])}], [{"k": "splitEqual", "step": 2}],
+                                    [{"k": "splitUniform", "step": 2}, {"k": rng.choice(["mul", "add", "copy"])}],
+                                    [{"k": "add"}], [{"k": "copy"}]])
+            if any(st["k"] in ("mul", "add") for st in kw["pre"]) and kind != "free":
+                kw["pre"] = [kw["pre"][0]] if kw["pre"][0]["k"] not in ("mul", "add") else [{"k": "copy"}]
+            if rng.random() < 0.4:
+                t = []          # transforms of EMPTY operands
         if rng.random() < 0.12 and "pre" not in kw:        # fibers built with ordered=False (optionally unique=False)
             kw["unordered"] = rng.choice([True, True, "nonunique", "sorted"])
         if fam == "read" and rng.random() < 0.3:
